@@ -117,3 +117,20 @@ Example C19_generated_offset_hypotheses_satisfiable :
 Proof.
   cbv zeta. split; [intros x y _; reflexivity|]. vm_compute. repeat split; try reflexivity; try discriminate.
 Qed.
+
+(* sub_faces_by_ratio scales a face about its centroid only when Polygon2D.is_convex says so (a concave face scaled that way leaves its
+   parent): the generated test is True exactly when NO vertex - the first and the last included - turns against the loop *)
+From LBG Require Import C05_convex.
+Theorem C19_is_convex_checks_the_turn_at_every_vertex : forall p : Polygon2R,
+  let vs := pg_vertices p in let n := length vs in
+  Polygon2D_is_convex p = true <->
+  (n = 3%nat \/ forall i, (i < n)%nat ->
+     let t := det2 (sub2 (cnth vs i) (cnth vs (i + n - 1))) (sub2 (cnth vs (S i)) (cnth vs i)) in
+     if Polygon2D_is_clockwise p then t <= 0 else 0 <= t)%Q.
+Proof. exact is_convex_vertices. Qed.
+Print Assumptions C19_is_convex_checks_the_turn_at_every_vertex.
+
+(* an L whose reflex corner is its start vertex is not convex *)
+Example C19_L_started_at_its_reflex_corner_is_not_convex :
+  Polygon2D_is_convex (mkPolygon2 (mkV2 1 1 :: mkV2 1 4 :: mkV2 0 4 :: mkV2 0 0 :: mkV2 4 0 :: mkV2 4 1 :: nil)) = false.
+Proof. vm_compute. reflexivity. Qed.
